@@ -28,7 +28,7 @@ REQUIRED = ['sequences', 'inv_bounded', 'inv_init', 'inv_cleanup_once', 'inv_seq
 DEPTH = {'quick': 5, 'thorough': 7}
 NPROG = {'quick': 24, 'thorough': 48}
 NRANDOM = {'quick': 1500, 'thorough': 40000}
-NMODULE = {'quick': 600, 'thorough': 20000}
+NMODULE = {'quick': 3200, 'thorough': 40000}
 SETTLE = 8
 
 BASE_PROGS = [
@@ -316,14 +316,17 @@ def check_trace(tr, maxloops=10, counts=None):
             if tag != cur:
                 # a new run is entered: the previous one must be over
                 if cur is not None and phase == 'cleanup-seq':
-                    # mechanism: was the cleanup function called in the last iteration the loop limit allows
-                    # (then its follow-up state is dropped by the limit, never called) or was a running sequence cut?
+                    # mechanism: was the sequence cut in a cycle that ran into the loop limit (the limit is shared by
+                    # the interrupted run and its cleanup sequence: the follow-up states are dropped by the
+                    # 'too many states chained' branch) or was a running sequence cut by something else?
                     ci = max(i for i in range(idx) if tr[i][0] == 'C')
-                    c0 = max(i for i in range(ci) if tr[i][:2] == ('OP', 'cycle'))
-                    chain = sum(1 for x in tr[c0:ci + 1] if x[0] in 'SC' and x[3] == tr[ci][3])
-                    seq_called = any(x[0] == 'S' and x[3] == tr[ci][3] for x in tr[ci + 1:idx])
-                    if not seq_called and chain >= maxloops:
-                        v.append(('cleanup-sequence-dropped-at-loop-limit', e))
+                    seqtag = tr[ci][3]
+                    last = max(i for i in range(ci, idx) if tr[i][0] in 'SC' and tr[i][3] == seqtag)
+                    c0 = max(i for i in range(last) if tr[i][:2] == ('OP', 'cycle'))
+                    cend = next((i for i in range(last, len(tr)) if tr[i][0] in ('CYC', 'EXC')), len(tr))
+                    calls = sum(1 for x in tr[c0:cend] if x[0] in 'SC')
+                    if calls >= maxloops:
+                        v.append(('cleanup-sequence-cut-by-loop-limit', e))
                     else:
                         v.append(('cleanup-sequence-interrupted', e))
                 cur, phase = tag, 'normal'
@@ -544,7 +547,7 @@ def run_threaded(r, api, progs, rng, shard_idx, nshards, base_depth, nrandom, bu
 # ------------------------------------------------------------------ module level (HasStates)
 
 def make_module_class():
-    from frappy.core import Drivable, Parameter, FloatRange, IDLE, BUSY, ERROR
+    from frappy.core import Drivable, Parameter, FloatRange, IDLE, BUSY, ERROR, Command
     from frappy.states import HasStates, Retry, Finish, status_code
     from frappy.lib.statemachine import StateMachine
 
@@ -582,12 +585,95 @@ def make_module_class():
         def write_target(self, value):
             self.start_machine(self.state_a if value > 0 else self.state_c)
             return value
+
+        @Command
+        def go(self):
+            """start the machine from a command (no access lock held, unlike write_target)"""
+            self.start_machine(self.state_a)
     return Mod, IDLE, BUSY, ERROR
+
+
+class PollInjector:
+    """module level: the poller thread runs a poll cycle (cycle_machine) while a start / stop request is executing
+
+    before the k-th line of HasStates.start_machine / stop_machine a real second thread starts m.cycle_machine(); the
+    requesting thread continues as soon as the state machine cycle of that poll has returned (the rest of the poll - the
+    status read - may have to wait for the access lock the request holds, as in the real node)"""
+    TOOL = 4
+
+    def __init__(self, HasStates):
+        import sys
+        import threading
+        self.mon, self.threading = sys.monitoring, threading
+        self.codes = [HasStates.start_machine.__code__, HasStates.stop_machine.__code__]
+        self.m = None
+        self.k = self.count = 0
+        self.thread = None
+        self.injected = 0
+        self.requester = threading.get_ident()
+        self.mon.use_tool_id(self.TOOL, 'c14-poll-inject')
+        self.mon.register_callback(self.TOOL, self.mon.events.LINE, self.on_line)
+        for c in self.codes:
+            self.mon.set_local_events(self.TOOL, c, self.mon.events.LINE)
+
+    def close(self):
+        for c in self.codes:
+            self.mon.set_local_events(self.TOOL, c, 0)
+        self.mon.register_callback(self.TOOL, self.mon.events.LINE, None)
+        self.mon.free_tool_id(self.TOOL)
+
+    def arm(self, m, k):
+        self.m, self.k, self.count, self.thread = m, k, 0, None
+
+    def finish(self):
+        """after the request returned: let the poll finish"""
+        self.m = None
+        t, self.thread = self.thread, None
+        if t is not None:
+            t.join(10)
+            if t.is_alive():
+                raise RuntimeError('injected poll cycle never finished')
+        return t is not None
+
+    def on_line(self, code, line):
+        if self.m is None or self.threading.get_ident() != self.requester:
+            return
+        self.count += 1
+        if self.count == self.k and self.thread is None:
+            sm = self.m._state_machine
+            done = self.threading.Event()
+            real_cycle = type(sm).cycle
+
+            def cycle():
+                try:
+                    real_cycle(sm)
+                finally:
+                    del sm.cycle
+                    done.set()
+            sm.cycle = cycle
+            self.injected += 1
+            self.thread = self.threading.Thread(target=self.m.cycle_machine)
+            self.thread.start()
+            # the cycle may itself need the access lock the request holds (status update in a transition): then the
+            # poller simply waits inside its cycle until the request returns
+            if done.wait(0.05):
+                self.thread.join(0.003)       # finished, or waiting for the access lock of the request
 
 
 def run_module(r, rng, n):
     from vlib import nodes
+    from frappy.states import HasStates
     Mod, IDLE, BUSY, ERROR = make_module_class()
+    inj = PollInjector(HasStates)
+    try:
+        _run_module(r, rng, n, inj, Mod, IDLE, BUSY, ERROR)
+    finally:
+        inj.close()
+    r.count('module_polls_injected_into_requests', inj.injected)
+
+
+def _run_module(r, rng, n, inj, Mod, IDLE, BUSY, ERROR):
+    from vlib import nodes
     for i in range(n):
         m = nodes.make_module(Mod, 'm')
         m.earlyInit()
@@ -598,19 +684,31 @@ def run_module(r, rng, n):
         m.pollInfo = PollInfo(1, threading.Event())
         m.log_ = log = []
         m.script = [rng.choice(['retry', 'retry', 'next', 'finish', 'raise', 'final']) for _ in range(rng.randint(0, 8))]
-        ops = [rng.choice(['poll', 'poll', 'poll', 'start', 'stop']) for _ in range(rng.randint(3, 12))]
+        ops = [rng.choice(['poll', 'poll', 'poll', 'start', 'stop', 'go']) for _ in range(rng.randint(3, 12))]
         script0 = list(m.script)
         statuses = []
         active_from = None
         ok = True
-        for op in ops + ['poll'] * SETTLE:
+        inject = rng.random() < 0.6
+        for oi, op in enumerate(ops + ['poll'] * SETTLE):
             try:
                 if op == 'poll':
                     m.cycle_machine()
-                elif op == 'start':
-                    m.write_target(rng.choice([1.0, -1.0]))
                 else:
-                    m.stop()
+                    if inject and rng.random() < 0.6:
+                        k = rng.randint(1, 12)
+                        ops[oi] = f'{op}+poll@{k}' if oi < len(ops) else op
+                        inj.arm(m, k)
+                    try:
+                        if op == 'start':
+                            m.write_target(rng.choice([1.0, -1.0]))
+                        elif op == 'go':
+                            m.go()
+                        else:
+                            m.stop()
+                    finally:
+                        if inj.finish():
+                            op = 'poll-during-' + ('stop' if op == 'stop' else 'start')     # write_target and go both call start_machine
             except Exception as e:
                 r.violation('C14/module/raises', f'{op} raised {type(e).__name__}: {e}'[:200],
                             {'kind': 'module', 'script': script0, 'ops': ops})
@@ -623,16 +721,17 @@ def run_module(r, rng, n):
             r.count('inv_module_status')
             busy = BUSY <= st[0] < ERROR
             if active and not busy:
-                r.violation('C14/module/not-busy-while-active', f'status {int(st[0])} {st[1]!r} while the machine is active after {op}',
+                r.violation('C14/module/not-busy-while-active' + ('/' + op if op.startswith('poll-during') else ''), f'status {int(st[0])} {st[1]!r} while the machine is active after {op}',
                             {'kind': 'module', 'script': script0, 'ops': ops, 'statuses': statuses})
                 ok = False
                 break
             if not active and busy:
-                r.violation('C14/module/busy-after-finish', f'status {int(st[0])} {st[1]!r} although the machine is inactive after {op}',
+                r.violation('C14/module/busy-after-finish' + ('/' + op if op.startswith('poll-during') else ''), f'status {int(st[0])} {st[1]!r} although the machine is inactive after {op}',
                             {'kind': 'module', 'script': script0, 'ops': ops, 'statuses': statuses})
                 ok = False
                 break
-        r.case(('module', tuple(script0), tuple(ops)), 'start' in ops and ('stop' in ops or ops.count('start') > 1))
+        r.case(('module', tuple(script0), tuple(ops)), any(o.startswith(('start', 'go')) for o in ops) and
+               (any(o.startswith('stop') for o in ops) or sum(o.startswith(('start', 'go')) for o in ops) > 1))
         r.count('module_sequences')
         if r.want_sample() and i % 50 == 0:
             r.sample({'module_script': script0, 'ops': ops, 'statuses': statuses[-6:]})
